@@ -44,6 +44,7 @@ struct __attribute__((packed)) inputs
     uint8_t replay_ok;
     uint8_t callerAlertDesc;
     uint32_t supported;
+    uint32_t k;              /* ghost index into the delivered plaintext */
     unsigned char buf[BUFN];
 };
 static struct inputs g_in;
@@ -63,12 +64,13 @@ static struct { unsigned char *inp; uint32 len, remaining, reqLen; int32 error; 
 static uint32 g_size;
 
 static struct { int dec_calls, dec_ok, dec_failed, mac_calls, mac_ok, mac_failed, hs_calls, enc_calls, replay_calls, replay_refused, act_calls;
-                uint32_t flags_at_entry; uint8_t hsstate_at_entry; uint32_t dec_len; int pad_ok; } gh;
+                uint32_t flags_at_entry; uint8_t hsstate_at_entry; uint32_t dec_len; int pad_ok; uint32_t dec_off; } gh;
 
 static int32 model_decrypt(void *ssl, unsigned char *ct, unsigned char *pt, uint32 len)
 {
     gh.dec_calls++;
     gh.dec_len = len;
+    gh.dec_off = (uint32_t) (ct - g_buf);   /* where the protected record body starts on the wire */
 #ifdef MODE_AEAD
     /* contract proved for csAesGcmDecrypt / csChacha20Poly1305IetfDecrypt in C02 */
     if (len < 16 + (MODE_NONCE ? 8 : 0) + (MODE_NONCE ? 1 : 0) || g_in.prim_fail)
@@ -230,6 +232,12 @@ HARNESS_BEGIN
     g_ssl.ignoredMessageCount = in.ignored;
     __CPROVER_assume(in.ignored >= 0 && in.ignored <= SSL_MAX_IGNORED_MESSAGE_COUNT + 1);
     g_cipher.flags = in.cipherFlags & ~CRYPTO_FLAGS_CCM8;   /* no suite of the table sets CCM8 */
+    /* the cipher spec agrees with the mode: ChaCha20-Poly1305 is the AEAD without an explicit nonce */
+#if defined(MODE_AEAD) && !MODE_NONCE
+    g_cipher.flags |= CRYPTO_FLAGS_CHACHA;
+#else
+    g_cipher.flags &= ~CRYPTO_FLAGS_CHACHA;
+#endif
     g_ssl.cipher = &g_cipher;
     g_ssl.activeReadCipher = &g_cipher;
     g_ssl.decrypt = model_decrypt;
